@@ -91,6 +91,7 @@ Definition a_handler (kind arg : Z) (s : ast) : result ast :=
     if negb (arg =? 0) && negb (memZ arg (a_osets s)) then Err s
     else Ok {| a_tokens := a_tokens s; a_nonce := a_nonce s; a_pending := a_pending s; a_osets := a_osets s; a_lastoset := arg |}
   else if kind =? 3 then Err s     (* MsgBridgeTokenClaim with symbol FX and the wrong decimals: refused *)
+  else if kind =? 4 then Err s     (* placeholder: kind 4 panics, see a_handler_p *)
   else Ok {| a_tokens := a_tokens s; a_nonce := a_nonce s; a_pending := arg :: a_pending s; a_osets := a_osets s; a_lastoset := a_lastoset s |}.
 
 Definition a_mark (n : Z) (s : ast) : ast :=
@@ -99,15 +100,19 @@ Definition a_mark (n : Z) (s : ast) : ast :=
 Record att_case := {
   ac_tokens : list Z; ac_osets : list Z; ac_lastoset : Z; ac_nonce : Z;  (* pre; the claim's event nonce is ac_nonce+1 *)
   ac_kind : Z; ac_arg : Z;
-  ac_obs_ok : bool; ac_obs_nonce : Z; ac_obs_token : bool; ac_obs_pending : bool; ac_obs_lastoset : Z }.
+  ac_obs_class : Z; ac_obs_nonce : Z; ac_obs_token : bool; ac_obs_pending : bool; ac_obs_lastoset : Z }.
 Definition mk_att_case tokens osets lastoset nonce kind arg ok onon otok opend olast : att_case :=
   {| ac_tokens := tokens; ac_osets := osets; ac_lastoset := lastoset; ac_nonce := nonce; ac_kind := kind; ac_arg := arg;
-     ac_obs_ok := ok; ac_obs_nonce := onon; ac_obs_token := otok; ac_obs_pending := opend; ac_obs_lastoset := olast |}.
+     ac_obs_class := ok; ac_obs_nonce := onon; ac_obs_token := otok; ac_obs_pending := opend; ac_obs_lastoset := olast |}.
+
+(* kind 4 = MsgSendToExternalClaim for a batch the module does not know: OutgoingTxBatchExecuted panics *)
+Definition a_handler_p (kind arg : Z) (s : ast) : option (result ast) :=
+  if kind =? 4 then None else Some (a_handler kind arg s).
 
 Definition att_mismatch (c : att_case) : bool :=
   let pre := {| a_tokens := ac_tokens c; a_nonce := ac_nonce c; a_pending := []; a_osets := ac_osets c; a_lastoset := ac_lastoset c |} in
-  let (post, ok) := try_attestation ast (a_handler (ac_kind c) (ac_arg c)) (a_mark (ac_nonce c + 1)) (fun s => s) pre in
-  negb (Bool.eqb ok (ac_obs_ok c)
+  let (post, cls) := claim_tx ast (a_mark (ac_nonce c + 1)) (fun s => s) (a_handler_p (ac_kind c) (ac_arg c)) (fun s => s) (fun s => s) pre in
+  negb ((cls =? ac_obs_class c)
         && (a_nonce post =? ac_obs_nonce c)
         && Bool.eqb (if ac_kind c =? 0 then memZ (ac_arg c) (a_tokens post) else false) (ac_obs_token c)
         && Bool.eqb (memZ (ac_nonce c + 1) (a_pending post)) (ac_obs_pending c)
